@@ -1,49 +1,107 @@
 """Per-property configuration of check.py: which theorems/ties are obligations, which harness
 levels and generator profiles run, how 'distinct non-trivial' is counted."""
 
+def _l1(profiles, nq, nt, **kw):
+    d = {"profiles": profiles, "n": {"quick": nq, "thorough": nt}, "shards": {"quick": 1, "thorough": 4}, "incoq": {"quick": 3, "thorough": 12}}
+    d.update(kw)
+    return d
+
+
+_TREES = "random message trees (depth<=12, fan-out<=6, 1-4 top-level messages, all three carrier types, 5% carriers that fail to unpack) x heights {0,1,2,3,10,1e6}"
+_HIST = ("directed second-order scenarios (P1-P18, S1-S3 of DESIGN.md) + random histories (6-36 blocks, 1-5 genesis validators, pool of 8 identities, "
+         "profiles %s: admin workflow around the 30%% boundary, hazards (repeat targets, jailed/removed/unknown targets, unjail, parameter changes, "
+         "max_validators 2-4), wrong senders, malformed inputs, noise) on the real SimApp with CometBFT's ValidatorSet tracked; ")
+
 PROPS = {
-    "C07": {
-        "tie": [],
-        "pure_kinds": ["stk"],
-        "pure_n": {"quick": 20000, "thorough": 400000},
-        "rule": "random message trees (depth<=12, fan-out<=6, 1-4 top-level messages, all three carrier types, 5% carriers that fail to unpack) x heights {0,1,2,3,10,1e6}; non-trivial = height>1, tree contains a forbidden staking message at nesting depth>=2 that is not under the first top-level message (or a single deep message); distinct by model term",
-        "assumptions": ["carrier census (authz.MsgExec, gov v1 MsgSubmitProposal, group MsgSubmitProposal) is checked against the app's interface registry by Tie/Registry.v"],
-    },
-    "C08": {
-        "tie": [],
-        "pure_kinds": ["wd"],
-        "pure_n": {"quick": 20000, "thorough": 400000},
-        "rule": "as C07 with distribution.MsgWithdrawDelegatorReward as the forbidden leaf",
-        "assumptions": [],
-    },
-    "C09": {
-        "tie": [],
-        "pure_kinds": ["comm"],
-        "pure_n": {"quick": 20000, "thorough": 400000},
-        "rule": "random trees with commission-carrying leaves (rates at floor/ceil +-1e-18, nil rates) x 6 (floor,ceil) configurations incl. floor=ceil and floor>ceil x genesis flag x heights; non-trivial = check applies and (>=2 rate-setting messages or a nil-rate message); distinct by model term",
-        "assumptions": [],
-    },
-    "C14": {
-        "tie": [],
-        "pure_kinds": ["setpower"],
-        "pure_n": {"quick": 5000, "thorough": 200000},
-        "rule": "MsgSetPower.Validate on boundary and random 64-bit powers x valid/invalid addresses; non-trivial = valid address and power >= 999999; distinct by (address class, power)",
-        "assumptions": [],
-    },
+    "C01": {"tie": ["Tie/Census.v"], "l1": _l1(["authority", "mixed"], 120, 2400, twin=True),
+            "l1_nontrivial": ["op:setpower", "out:setpower:err 0 3"],
+            "rule": _HIST % "authority,mixed" + "non-trivial = history contains a SetPower refused as not-an-authority; distinct by history term; failing txs twin-executed (per-module store hashes)",
+            "assumptions": ["POA_BYPASS_ADMIN_CHECK_FOR_SIMULATION_TESTING_ONLY is not set", "admin configured through POA_ADMIN_ADDRESS in L1 runs; the three resolution paths are exercised by the factgen probe (Tie/Census.v)"]},
+    "C02": {"tie": [], "l1": _l1(["mixed", "hazard", "workflow"], 150, 6000),
+            "l1_nontrivial": ["updates>=2blocks"],
+            "rule": _HIST % "mixed,hazard,workflow" + "non-trivial = validator updates in >= 2 blocks; distinct by history term",
+            "assumptions": ["H-time, H-alive, H-maxvals of DESIGN.md App. A are respected by the generators", "known finding: max_validators binding at admission (C02/...:max-validators-binding)"]},
+    "C03": {"tie": [], "l1": _l1(["mixed", "hazard", "workflow"], 150, 6000),
+            "l1_nontrivial": ["same-block-repeat"],
+            "rule": _HIST % "mixed,hazard,workflow" + "non-trivial = some validator targeted twice in one block; distinct by history term",
+            "assumptions": []},
+    "C04": {"tie": [], "l1": _l1(["hazard", "mixed", "malformed"], 150, 6000),
+            "l1_nontrivial": ["maturity"],
+            "rule": _HIST % "hazard,mixed,malformed" + "non-trivial = history crosses an unbonding maturity; distinct by history term",
+            "assumptions": ["environment hypotheses H-time (two block intervals < unbonding time), H-alive (downtime never jails the whole upcoming set), H-maxvals (max_validators <= 1000)"]},
+    "C05": {"tie": [], "l1": _l1(["boundary", "workflow", "mixed"], 150, 6000),
+            "l1_nontrivial": ["op:setpower", "out:setpower:err 0 4", "out:setpower:pass"],
+            "rule": _HIST % "boundary,workflow,mixed" + "powers chosen at floor(0.3T)-1, floor(0.3T), +1 of the tracked total; non-trivial = history has both an accepted and a limit-refused SetPower; distinct by history term",
+            "assumptions": []},
+    "C06": {"tie": [], "l1": _l1(["mixed", "malformed", "authority"], 90, 2400, twin=True),
+            "l1_nontrivial": ["op:setpower", "out:setpower:err 0 4"],
+            "rule": _HIST % "mixed,malformed,authority" + "up to 3 failing txs per history are twin-executed (chain without the tx; per-module store hashes poa/staking/slashing/bank/mint/distribution + projection); non-trivial = history has a SetPower refused by the limit after its writes",
+            "assumptions": ["atomicity itself is BaseApp's (outside the repository): the model assumes it in deliver_tx, the twin execution checks it"]},
+    "C07": {"tie": ["Tie/Census.v"], "pure_kinds": ["stk"], "pure_n": {"quick": 20000, "thorough": 400000}, "l1": _l1(["mixed"], 40, 400),
+            "rule": _TREES + "; non-trivial = height>1, forbidden staking message at nesting depth>=2 not under the first top-level message; distinct by model term",
+            "assumptions": ["carrier census (authz.MsgExec, gov v1 MsgSubmitProposal, group MsgSubmitProposal) checked against the app's interface registry by Tie/Census.v"]},
+    "C08": {"tie": ["Tie/Census.v"], "pure_kinds": ["wd"], "pure_n": {"quick": 20000, "thorough": 400000}, "l1": _l1(["mixed"], 40, 400),
+            "rule": "as C07 with distribution.MsgWithdrawDelegatorReward as the forbidden leaf", "assumptions": []},
+    "C09": {"tie": ["Tie/Census.v"], "pure_kinds": ["comm"], "pure_n": {"quick": 20000, "thorough": 400000}, "l1": _l1(["malformed"], 40, 400),
+            "rule": "random trees with commission-carrying leaves (rates at floor/ceil +-1e-18, nil rates) x 6 (floor,ceil) configurations incl. floor=ceil and floor>ceil x genesis flag x heights; non-trivial = check applies and (>=2 rate-setting messages or a nil-rate message)",
+            "assumptions": []},
+    "C10": {"tie": [], "l1": _l1(["workflow", "hazard", "malformed"], 150, 6000),
+            "l1_nontrivial": ["op:create", "out:create:pass", "out:create:err 2 4"],
+            "rule": _HIST % "workflow,hazard,malformed" + "non-trivial = history has an accepted application and one refused for a reused operator; distinct by history term",
+            "assumptions": []},
+    "C11": {"tie": [], "l1": _l1(["mixed", "hazard", "workflow"], 150, 6000),
+            "l1_nontrivial": ["op:setpower", "op:remove", "jailing"],
+            "rule": _HIST % "mixed,hazard,workflow" + "non-trivial = history has SetPower, a removal and a jailing; x/mint inflation 0 so supply moves only through PoA and slashing",
+            "assumptions": ["x/mint provisions are zero in the harness genesis (mint is not modelled)"]},
+    "C12": {"tie": ["Tie/Census.v"], "l1": _l1(["mixed", "hazard"], 60, 1600, restarts=True),
+            "l1_nontrivial": ["updates>=2blocks"],
+            "rule": _HIST % "mixed,hazard" + "each history also on a fresh node that is never queried and on a node re-created from its MemDB at a random subset of commit boundaries (every boundary for histories <= 12 blocks); AppHash, tx results and ordered updates byte-compared per height",
+            "assumptions": ["process-local memory, map iteration order and the database are runtime facts: validated by execution, not proved"]},
+    "C13": {"tie": [], "l1": _l1(["hazard", "mixed"], 150, 6000),
+            "l1_nontrivial": ["jailing", "op:unjail"],
+            "rule": _HIST % "hazard,mixed" + "non-trivial = history has a jailing and an unjail attempt; distinct by history term",
+            "assumptions": ["H-alive: downtime never jails the whole upcoming validator set"]},
+    "C14": {"tie": [], "pure_kinds": ["setpower"], "pure_n": {"quick": 5000, "thorough": 200000}, "l1": _l1(["malformed", "boundary"], 80, 1600),
+            "rule": "MsgSetPower.Validate on boundary and random 64-bit powers x valid/invalid addresses (non-trivial = valid address and power >= 999999; distinct by (address class, power)); L1 read-back of tokens/shares/delegation/update power on histories with extreme powers",
+            "assumptions": []},
+    "C15": {"tie": [], "pure_kinds": ["commission", "create"], "pure_n": {"quick": 4000, "thorough": 100000}, "l1": _l1(["malformed"], 60, 800),
+            "rule": "three-way differential poa Validate / model / stakingtypes Validate on generated commission decimals (negatives, >1, 18-digit boundaries, absent), description lengths at each limit +-1, absent keys, bad bech32; non-trivial = some rule rejects; distinct by model term",
+            "assumptions": []},
+    "C16": {"tie": [], "pure_kinds": ["params"], "pure_n": {"quick": 4000, "thorough": 100000}, "l1": _l1(["malformed", "hazard"], 100, 2400),
+            "l1_nontrivial": ["op:params", "out:params:pass"],
+            "rule": "stakingtypes.Params.Validate vs the model on tuples at each field's boundary; L1: admin parameter updates (valid and invalid) followed by further blocks; non-trivial = accepted update in the history",
+            "assumptions": ["H-maxvals: generated max_validators <= 1000 (x/staking allocates max_validators entries per block)"]},
+    "C17": {"tie": ["Tie/Census.v"], "pure_kinds": ["convert"], "pure_n": {"quick": 2000, "thorough": 50000},
+            "rule": "random fully populated validator records (both key types, empty/maximal strings, large ints, 18-digit decimals) through ConvertStakingToPOA/ConvertPOAToStaking, the pending store (real codec) and ExportGenesis->JSON->ValidateGenesis->InitGenesis into a fresh app; non-trivial = every field non-default",
+            "assumptions": []},
+    "C18": {"tie": ["Tie/Census.v"], "l1": _l1(["mixed", "hazard"], 90, 2400, restarts=True),
+            "l1_nontrivial": ["jailing"],
+            "rule": _HIST % "mixed,hazard" + "after every commit the three queries are sent through the ABCI query path for every pool identity, an unknown and a malformed address; a never-queried twin node must have the same app hashes",
+            "assumptions": []},
 }
 
 _NOTE = ("Trusted: Coq 8.16.1 kernel + vm_compute; the hand-written Gallina model (x/staking, x/slashing, bank pools, CometBFT rules re-written, not verified); "
          "its tie to /repo = differential execution on generated inputs + Tie theorems over generated fact tables; extraction (ExtrOcamlBasic only) cross-checked in-Coq on a sample.")
 
 LEVELS = {
-    "C07": {"text": "Theorems over message trees of unbounded depth/fan-out (nested induction) that the staking filter rejects exactly the transactions containing a forbidden message through any carrier; model tied to the running decorator by differential execution on random trees and to the app's registry by census.",
-            "note": _NOTE, "technique": "Coq proof by nested induction over rose trees + differential testing of the model against the Go decorator"},
-    "C08": {"text": "Same theorems for the withdraw-delegator-reward filter.",
-            "note": _NOTE, "technique": "Coq proof by nested induction over rose trees + differential testing of the model against the Go decorator"},
-    "C09": {"text": "Theorems that the commission decorator accepts iff every rate-setting message at any depth is in [floor,ceil], never panics, and exempts genesis exactly when validation is off.",
-            "note": _NOTE, "technique": "Coq proof (tree induction, lia over scaled decimals) + differential testing against the Go decorator"},
-    "C14": {"text": "Theorems over all 64-bit powers: accepted iff 10^6 <= p <= 2^63-1, exact token/share/power conversion, same-power rejection; tied to Validate and the handler by differential execution on boundary values.",
-            "note": _NOTE, "technique": "Coq proof (lia / Z.div over unbounded Z with explicit 64-bit casts) + differential testing"},
+    "C01": {"text": "Theorems: every gated handler returns not-an-authority for any sender but the admin (self-removal excepted, only for a bonded validator that leaves a signer behind); through the tx wrapper the state is unchanged. Model tied to the app by history differential + twin execution; RPC census by Tie/Census.v.", "note": _NOTE, "technique": "Coq proof (case analysis on the handlers, tx-wrapper lemma) + differential testing against the real SimApp"},
+    "C02": {"text": "Block-boundary invariant of the x/staking+PoA model (one index entry per validator at its token power, last powers = bonded set, CometBFT's next set = last powers) proved preserved by every block under the stated environment hypotheses, cap not binding; model tied to the app by history differential; monitor compares the real ValidatorSet with the chain's queries after every block.", "note": _NOTE + " Partial: the cap-binding case is a known finding, not covered by the theorem.", "technique": "Coq proof by induction over histories of an inductive invariant + differential testing against the real SimApp"},
+    "C03": {"text": "Theorems: a successful SetPOAPower writes exactly the requested tokens/shares/delegation and re-keys exactly the target's index entry; frame lemma for every other validator; with the C02 invariant the next set reflects it.", "note": _NOTE, "technique": "Coq proof (gmap frame lemmas) + differential testing against the real SimApp"},
+    "C04": {"text": "Theorems: last-bonded guard; EndBlocker never meets a missing record / bad transition / foreign queue entry under the invariant; emitted updates have distinct keys and zero updates only for members, so CometBFT's rules accept them. Tied to the app by history differential incl. maturities; monitor = real FinalizeBlock errors + real UpdateWithChangeSet verdict.", "note": _NOTE + " Environment hypotheses H-time, H-alive, H-maxvals are explicit.", "technique": "Coq proof (loop invariant of ApplyAndReturnValidatorSetUpdates) + differential testing against the real SimApp and CometBFT's ValidatorSet"},
+    "C05": {"text": "Theorems: safe SetPower above height 1 succeeds only if 100*sum < 30*cached (uint64 arithmetic written out); every change adds |new - power held at that point|; BeginBlocker zeroes the sum and refreshes the total; failed txs roll back (C06); unsafe skips only the test.", "note": _NOTE, "technique": "Coq proof (lia over Z with explicit wrap) + differential testing with boundary powers against the real SimApp"},
+    "C06": {"text": "Theorem: a failing tx yields the pre-state or the pre-state with bumped sequences (enumerating ante rejection and every handler failure). Atomicity is BaseApp's: assumed in the model's deliver_tx and validated by twin execution with per-module store hashes.", "note": _NOTE + " Partial by nature: the rollback mechanism lives in the SDK.", "technique": "Coq proof over the model's tx wrapper + twin execution (translation validation of atomicity)"},
+    "C07": {"text": "Theorems over message trees of unbounded depth/fan-out (nested induction): the staking filter rejects exactly the transactions containing a forbidden message through any carrier; tied to the running decorator by differential execution on random trees and to the app's registry by census.", "note": _NOTE, "technique": "Coq proof by nested induction over rose trees + differential testing of the model against the Go decorator"},
+    "C08": {"text": "Same theorems for the withdraw-delegator-reward filter.", "note": _NOTE, "technique": "Coq proof by nested induction over rose trees + differential testing of the model against the Go decorator"},
+    "C09": {"text": "Theorems: the commission decorator accepts iff every rate-setting message at any depth is in [floor,ceil], never panics, exempts genesis exactly when validation is off.", "note": _NOTE, "technique": "Coq proof (tree induction, lia over scaled decimals) + differential testing against the Go decorator"},
+    "C10": {"text": "Theorems: create appends exactly the application, remove-pending deletes the first match, both preserve pairwise-distinct operators/consensus keys across pending and validators; monitor refines the pending query against the history's applications.", "note": _NOTE, "technique": "Coq proof (list/gmap invariants) + differential testing against the real SimApp"},
+    "C11": {"text": "Theorem: every PoA message ends with the bonded pool = bonded validators' tokens, not-bonded pool untouched, supply delta = pool delta; pool equalities after every block by the model differential; monitors: pools vs token sums, supply outside pools constant.", "note": _NOTE + " x/mint is not modelled (inflation 0 in the harness).", "technique": "Coq proof + differential testing against the real SimApp"},
+    "C12": {"text": "Theorem: a run cut at any commit boundary and continued from the persisted world equals the uncut run (the model has no hidden memory). That the code has none is validated: second node, never-queried node, node restarted from its database at random boundaries, byte-equal AppHash/results/updates.", "note": _NOTE + " Partial by nature: process memory and iteration order are runtime facts.", "technique": "Coq proof of run composition + restart/duplicate execution (translation validation of determinism)"},
+    "C13": {"text": "Theorems: SetPower on a jailed / non-bonded validator and removal of a non-bonded one fail cleanly; jailed validators own no index entry so EndBlocker never re-admits them; with the C02 invariant a jailed validator stays out of the set.", "note": _NOTE, "technique": "Coq proof + differential testing with downtime patterns against the real SimApp"},
+    "C14": {"text": "Theorems over all 64-bit powers: accepted iff 10^6 <= p <= 2^63-1, exact token/share/power conversion, same-power rejection; float64 absolute difference exact below 2^53.", "note": _NOTE, "technique": "Coq proof (lia / Z.div over unbounded Z with explicit 64-bit casts) + differential testing"},
+    "C15": {"text": "Theorem: poa Validate = stakingtypes Validate for any value >= msd >= 1 (incl. error and crash cases); rule set spelled out; three-way differential against both Go implementations.", "note": _NOTE, "technique": "Coq proof of rule equivalence + three-way differential testing"},
+    "C16": {"text": "Theorems: a successful update sets exactly the six fields and nothing else; invalid tuples (x/staking's Validate) are refused; validity spelled out.", "note": _NOTE, "technique": "Coq proof + differential testing against stakingtypes.Params.Validate and the real SimApp"},
+    "C17": {"text": "Theorems: both conversions are the identity on every listed field (commission update time excepted), lists keep order; Go converters, pending store and genesis export/import exercised on random fully populated records; field census by Tie/Census.v.", "note": _NOTE, "technique": "Coq proof (record extensionality) + round-trip testing through the real codec and genesis path"},
+    "C18": {"text": "Theorems: power query = last validator power for existing validators, error for unknown/malformed; pending and authority read-through; with the C02 invariant = CometBFT's power. Queries are state-free functions; the code's purity validated by the never-queried twin.", "note": _NOTE, "technique": "Coq proof + differential testing through the ABCI query path"},
 }
 
 ALL_IDS = ["C%02d" % i for i in range(1, 19)]
